@@ -79,6 +79,20 @@ def run(tier):
         # more than 255 components: the entry MAC is chained from the 1-based entry index as a 128-bit big-endian number
         big = L.Bf3File({}, [L.mk_comp({}, bytes([1 + (j % 255)])) for j in range(258 if tier == "quick" else 300)])
         L.rec_to_binary(rec, big, 5, L.gen_key(r), _cost=60)
+        # the encryption FLAG decides, whatever the ENC tag of the description says (and vice versa: a plain component may carry any tag)
+        for desc in ({0xC2: b"\x01"}, {0xC2: b"\x00"}, {0xC2: b"\x03"}, {0xC2: b"\x00\x02"}, {0xC2: b""}, {0xC2: b"\x01", 0xC3: b"\x02"}):
+            for flag in (True, False):
+                f = L.Bf3File({}, [L.mk_comp(desc, L.gen_payload(r, 21), 21, flag), L.gen_plain_comp(r)])
+                L.rec_to_binary(rec, f, 5, L.gen_key(r))
+        # a component of 64 KiB and more, session-key encrypted, serialised under one key and then - the SAME objects - under
+        # another key and as a BEC2 body: every serialisation is the layout for the key given to it
+        for n in ((65536 + 16,) if tier == "quick" else (65536, 65536 + 16, 70001, 131072 + 5)):
+            big_c = L.mk_comp({0xC3: b"\x03", 0xC2: b"\x02"}, bytes((j * 131 + j // 251) % 256 for j in range(n)), n, True)
+            fbig = L.Bf3File({}, [big_c, L.mk_comp({}, b"\x01\x02")])
+            k1, k2 = L.gen_key(r), bytes(r.randrange(1, 256) for _ in range(16))
+            L.rec_to_binary(rec, fbig, 5, k1, _cost=n // 64)
+            L.rec_to_binary(rec, fbig, 5, k2, _cost=n // 64)
+            L.rec_to_binary(rec, L.Bf3File({}, [big_c]), 7 + 34, k1, _cost=n // 64)
         # encrypted components whose declared length was not given explicitly
         for n in (7, 16, 20):
             f = L.Bf3File({}, [L.mk_comp({0xC2: b"\x02"}, L.gen_payload(r, n), None, True), L.gen_plain_comp(r)])
